@@ -132,7 +132,7 @@ def run(tier, seed):
     if cr or "list" not in res:
         raise core.Inconclusive("cannot list workloads")
     workloads = [tuple(x.split(":")) for x in res["list"][0].split()[2:]]
-    sh = core.parallel(shard_fn, seed=seed, tier=tier, exe=exe, workloads=workloads, ndouble=800 if tier == "quick" else 20000)
+    sh = core.parallel(shard_fn, seed=seed, tier=tier, exe=exe, workloads=workloads, ndouble=3200 if tier == "quick" else 20000)
     chk.absorb(sh)
     covered = set()
     for k in chk.merged.counters:
